@@ -62,6 +62,9 @@ type Row struct {
 	Cost   int
 	Note   string
 	Setup  func() *Inst
+	// NoAccept: no valid encoding is known for this row (discovered entry points); its bases are generic
+	// strings that need not be accepted, and the row does not count for the accepted-valid-encoding floor.
+	NoAccept bool
 
 	once sync.Once
 	inst *Inst
